@@ -99,6 +99,9 @@ pub fn h_c29_col_style() {
     check("C29.col_style.ok", r.is_ok());
     check("C29.col_style.keeps_width", ws.get_actual_column_width(c) == width_c);
     check("C29.col_style.applied", ws.get_column_style(c) == Ok(Some(style)));
+    // C30: a style assigned to a column is read back for that column and for no other
+    check("C30.col_style.read_back", ws.get_column_style(c) == Ok(Some(style)));
+    check("C30.col_style.not_shared", ws.get_column_style(o) == before_o.1);
     check("C29.col_style.keeps_hidden", ws.is_column_hidden(c) == hidden_c);
     check("C29.col_style.frame_other", before_o == (ws.is_column_hidden(o), ws.get_column_style(o), col_width_rec(&ws, o)));
     check("C27.col_style.wf", cols_well_formed(&ws.cols));
@@ -181,6 +184,8 @@ pub fn h_c29_row_style() {
     check("C29.row_style.ok", res.is_ok());
     check("C29.row_style.keeps_height", row_actual_height(&ws, r) == height_r);
     check("C29.row_style.applied", row_style(&ws, r) == Some((style, style != 0)));
+    check("C30.row_style.read_back", row_style(&ws, r) == Some((style, style != 0)));
+    check("C30.row_style.not_shared", row_style(&ws, o) == before_o.1);
     check("C29.row_style.keeps_hidden", ws.is_row_hidden(r) == hidden_r);
     check("C29.row_style.frame_other", before_o == (ws.is_row_hidden(o), row_style(&ws, o), row_rec(&ws, o)));
     check("C27.row_style.wf", rows_well_formed(&ws.rows));
